@@ -8,9 +8,17 @@ PID = "C18"; COQ_TARGET = "C18"
 SCHEMES = ["fourth_order_central_difference", "central_difference", "backward_difference", "forward_difference"]
 RULE = ("random smooth networks (mass action order 0-4 with repeats, four Hill kinds with integer and fractional exponents, general rational / exponential rates), "
         "1-3 species, 1-3 reactions, states in [0.5,6] (mass-action networks also with one component below the stencil's reach), parameters >= 0.1, every parameter name, four schemes; plus small production/degradation networks evaluated AT exact fixed points / nullcline points (a rate equation exactly 0.0); non-trivial = a non-linear rate law is present")
-TRUSTED = ["hand model coq/Model/Sensitivity.v tied by correspondence only", "np.round(.,10) applied by the harness to the model's output"]
+TRUSTED = ["translator tools/tr_stencils.py (Python ast, fail-closed): the stencil expressions, the perturbed sample points and the index roles of compute_J / compute_Zj are regenerated from bioscrape/analysis.py on every run (coq/Gen/StencilsGen.v) and proved equal to the hand model's (Proofs/TieStencils.v)", "hand model coq/Model/Sensitivity.v (loop structure, set_params sequence) tied by correspondence", "np.round(.,10) applied by the harness to the model's output"]
 ASSUMPTIONS = ["analytic derivative by sympy on the rate laws of the generated spec (harness oracle)", "error bound = 3 x (leading + next error term of the scheme at the point) + 1e-9"]
 POOL = ["kg*%s", "kg*%s*%s", "kg*%s/(1+%s)", "kg*%s^2/(Kg+%s^2)", "kg*exp(-%s/Kg)", "kg/(Kg+%s)"]
+
+def translate():
+    import importlib.util, os
+    from harness.common import Broken
+    p = os.path.join(os.path.dirname(os.path.dirname(os.path.dirname(os.path.abspath(__file__)))), "tools", "tr_stencils.py")
+    spec = importlib.util.spec_from_file_location("tr_stencils", p); m = importlib.util.module_from_spec(spec); spec.loader.exec_module(m)
+    try: return m.run()
+    except m.Refuse as e: raise Broken("tr_stencils refused: %s" % e, str(e))
 
 def gen_cases(seed, tier):
     rng = random.Random(seed * 2718 + 18); n = 40 if tier == "quick" else 400
